@@ -12,7 +12,7 @@ import (
 )
 
 func init() {
-	register("C18", c18Atomic, func(e *Env) { serveLoop(e, "C18") }, c18Active, c18Bounded, c18Lock, c18WaitGroup, c18Drain, c18HooksFirst)
+	register("C18", c18Atomic, func(e *Env) { serveLoop(e, "C18") }, c18Active, c18Bounded, c18Lock, c18WaitGroup, c18Drain, c18HooksFirst, c18Closes)
 }
 
 func isAtomicFn(f *types.Func) bool {
